@@ -18,25 +18,43 @@ Notation sattr := (sattr F mode eps).
 Notation PA := (PA F Peq Pineq). Notation PB := (PB F Peq Pineq).
 Notation LV := (LV F). Notation fp := (fp F). Notation fq := (fq F). Notation fx := (fx F). Notation fy := (fy F). Notation fe := (fe F).
 Notation idv := (idv F).
+(* local variables by POSITION (i-th local in the order of first assignment, aliases emitted by the translator):
+   renaming a local variable in the source does not touch these proofs *)
+Notation K_p_prev := gen_calc_proj_physical_with_var__L1 (only parsing).
+Notation K_q_prev := gen_calc_proj_physical_with_var__L2 (only parsing).
+Notation K_x_prev := gen_calc_proj_physical_with_var__L3 (only parsing).
+Notation K_y_prev := gen_calc_proj_physical_with_var__L4 (only parsing).
+Notation K_p_next := gen_calc_proj_physical_with_var__L5 (only parsing).
+Notation K_x_next := gen_calc_proj_physical_with_var__L6 (only parsing).
+Notation K_q_next := gen_calc_proj_physical_with_var__L7 (only parsing).
+Notation K_y_next := gen_calc_proj_physical_with_var__L8 (only parsing).
+Notation K_ps := gen_calc_proj_physical_with_var__L9 (only parsing).
+Notation K_qs := gen_calc_proj_physical_with_var__L10 (only parsing).
+Notation K_xs := gen_calc_proj_physical_with_var__L11 (only parsing).
+Notation K_ys := gen_calc_proj_physical_with_var__L12 (only parsing).
+Notation K_error_values := gen_calc_proj_physical_with_var__L13 (only parsing).
+Notation K_is_stopping := gen_calc_proj_physical_with_var__L14 (only parsing).
+Notation K_k := gen_calc_proj_physical_with_var__L15 (only parsing).
+Notation K_error_value := gen_calc_proj_physical_with_var__L16 (only parsing).
 
 (* the frame at the entry of a sweep >= 1: `next` variables hold the state s, the history lists hold h / er *)
 Definition Ev (hist : bool) (mi : Z) (isstop errv kv brk pp qp xp yp : val F) (s : dstate F)
     (h : list (dstate F)) (er : list (option F)) : env F :=
-  upd N_is_stopping isstop (upd N_error_value errv (upd N_k kv (upd N_break brk
-  (upd N_p_prev pp (upd N_q_prev qp (upd N_x_prev xp (upd N_y_prev yp
-  (upd N_p_next (VVec (sp s)) (upd N_q_next (VVec (sq s)) (upd N_x_next (VVec (sx s)) (upd N_y_next (VVec (sy s))
-  (upd N_ps (LV hist (map fp h)) (upd N_qs (LV hist (map fq h)) (upd N_xs (LV hist (map fx h)) (upd N_ys (LV hist (fy h))
-  (upd N_error_values (LV hist (map fe er))
+  upd K_is_stopping isstop (upd K_error_value errv (upd K_k kv (upd N_break brk
+  (upd K_p_prev pp (upd K_q_prev qp (upd K_x_prev xp (upd K_y_prev yp
+  (upd K_p_next (VVec (sp s)) (upd K_q_next (VVec (sq s)) (upd K_x_next (VVec (sx s)) (upd K_y_next (VVec (sy s))
+  (upd K_ps (LV hist (map fp h)) (upd K_qs (LV hist (map fq h)) (upd K_xs (LV hist (map fx h)) (upd K_ys (LV hist (fy h))
+  (upd K_error_values (LV hist (map fe er))
   (upd N_is_iteration_history (VBool hist) (upd N_max_iteration (VInt mi)
   (upd N_self (VStr "<self>") (upd N_var (VStr "<var>") (upd N_on_para_eq_constraint (VStr "<on_para_eq_constraint>")
   (@env0 F)))))))))))))))))))))).
 (* the frame just before the loop *)
 Definition E0 (hist : bool) (mi : Z) : env F :=
-  upd N_break (VBool false) (upd N_is_stopping (VBool false)
-  (upd N_p_prev (VVec vzero) (upd N_q_prev (VVec vzero) (upd N_x_prev (VVec conv_in) (upd N_y_prev VNone
-  (upd N_p_next VNone (upd N_q_next VNone (upd N_x_next VNone (upd N_y_next VNone
-  (upd N_ps (LV hist [VVec vzero]) (upd N_qs (LV hist [VVec vzero]) (upd N_xs (LV hist [VVec conv_in]) (upd N_ys (LV hist [VNone])
-  (upd N_error_values (LV hist [])
+  upd N_break (VBool false) (upd K_is_stopping (VBool false)
+  (upd K_p_prev (VVec vzero) (upd K_q_prev (VVec vzero) (upd K_x_prev (VVec conv_in) (upd K_y_prev VNone
+  (upd K_p_next VNone (upd K_q_next VNone (upd K_x_next VNone (upd K_y_next VNone
+  (upd K_ps (LV hist [VVec vzero]) (upd K_qs (LV hist [VVec vzero]) (upd K_xs (LV hist [VVec conv_in]) (upd K_ys (LV hist [VNone])
+  (upd K_error_values (LV hist [])
   (upd N_is_iteration_history (VBool hist) (upd N_max_iteration (VInt mi)
   (upd N_self (VStr "<self>") (upd N_var (VStr "<var>") (upd N_on_para_eq_constraint (VStr "<on_para_eq_constraint>")
   (@env0 F)))))))))))))))))))).
@@ -56,7 +74,7 @@ Ltac split_flag := match goal with |- context [s_if (VBool ?c) _ _ _] => is_var 
 Lemma vbody_S : forall (b hist : bool) mi k s h er pp qp xp yp errv kv, String.eqb mode "eq_ineq" = b -> h <> [] ->
   let s' := step F idv (PA b) (PB b) (S k) s in
   let stop := ltb F (br F n s s') eps in
-  restrict vvars (vbody (upd N_k (VInt (Z.of_nat (S k))) (restrict vvars (Ev hist mi (VBool false) errv kv (VBool false) pp qp xp yp s h er))))
+  restrict vvars (vbody (upd K_k (VInt (Z.of_nat (S k))) (restrict vvars (Ev hist mi (VBool false) errv kv (VBool false) pp qp xp yp s h er))))
   = restrict vvars (Ev hist mi (VBool stop) (VNum (br F n s s')) (VInt (Z.of_nat (S k))) (VBool stop)
                        (VVec (sp s)) (VVec (sq s)) (VVec (sx s)) (VVec (sy s)) s' (h ++ [s'])%list (er ++ [Some (br F n s s')])%list).
 Proof. intros b hist mi k s h er pp qp xp yp errv kv Hb Hh s' stop.
@@ -79,7 +97,7 @@ Qed.
 Lemma vloop : forall (b hist : bool) mi, String.eqb mode "eq_ineq" = b ->
   forall fuel k s h er pp qp xp yp errv, h <> [] ->
   exists pp' qp' xp' yp' errv' brk',
-  for_range vvars N_k fuel (S k) vbody
+  for_range vvars K_k fuel (S k) vbody
     (restrict vvars (Ev hist mi (VBool false) errv (VInt (Z.of_nat k)) (VBool false) pp qp xp yp s h er))
   = restrict vvars (Ev hist mi (VBool (r_stopped (loop F n idv (PA b) (PB b) eps fuel (S k) s h er))) errv'
                        (VInt (Z.of_nat (pred (r_steps (loop F n idv (PA b) (PB b) eps fuel (S k) s h er))))) brk' pp' qp' xp' yp'
@@ -101,7 +119,7 @@ Proof. intros b hist mi Hb fuel. induction fuel as [|f IH]; intros k s h er pp q
 Lemma vfirst : forall (b hist : bool) mi, String.eqb mode "eq_ineq" = b ->
   let s0 := init F idv conv_in in
   let s1 := step F idv (PA b) (PB b) 0 s0 in
-  restrict vvars (vbody (upd N_k (VInt (Z.of_nat 0)) (restrict vvars (E0 hist mi))))
+  restrict vvars (vbody (upd K_k (VInt (Z.of_nat 0)) (restrict vvars (E0 hist mi))))
   = restrict vvars (Ev hist mi (VBool false) VNone (VInt (Z.of_nat 0)) (VBool false)
                        (VVec vzero) (VVec vzero) (VVec conv_in) VNone s1 [s0; s1] [None]).
 Proof. intros b hist mi Hb s0 s1.
@@ -150,7 +168,7 @@ Proof. intros hist max_iter b e. subst e.
                 ltac:(discriminate)) as (pp' & qp' & xp' & yp' & errv' & brk' & Hl).
     pose proof (vfirst b hist (Z.of_nat (S f)) Hb) as Hf. cbv zeta in Hf. fold s0 s1 in Hf.
     assert (H0 : forall E, restrict vvars E = restrict vvars (E0 hist (Z.of_nat (S f))) ->
-                 for_range vvars N_k (S f) 0 vbody (restrict vvars E)
+                 for_range vvars K_k (S f) 0 vbody (restrict vvars E)
                  = restrict vvars (Ev hist (Z.of_nat (S f)) (VBool (r_stopped (loop F n idv (PA b) (PB b) eps f 1 s1 [s0; s1] [None]))) errv'
                        (VInt (Z.of_nat (pred (r_steps (loop F n idv (PA b) (PB b) eps f 1 s1 [s0; s1] [None]))))) brk' pp' qp' xp' yp'
                        (r_final (loop F n idv (PA b) (PB b) eps f 1 s1 [s0; s1] [None]))
